@@ -235,7 +235,14 @@ type C20Case struct {
 	Blocking []bool   `json:"blocking,omitempty"`
 	ErrAt    int      `json:"err_at"`           // before which update the inner source reports an error (-1 never)
 	ByPtr    bool     `json:"by_ptr,omitempty"` // the inner source hands out POINTERS to values of the type it was given (as sourcewrap.Blank does)
+	// BadAtP1 k>0: before update k-1 the inner watcher reports a value whose
+	// number text cannot be converted back (chains with string casting only);
+	// BadBlocking says through which call
+	BadAtP1     int  `json:"bad_at_p1,omitempty"`
+	BadBlocking bool `json:"bad_blocking,omitempty"`
 }
+
+func chainCastsStrings(id int) bool { return id == 2 || id == 4 || id == 5 }
 
 func genWLayer(t *rapid.T, n int) WLayer {
 	l := WLayer{}
@@ -310,6 +317,10 @@ func genC20(t *rapid.T) C20Case {
 		}
 		if n > 0 && rapid.IntRange(0, 2).Draw(t, "has_err") == 0 {
 			c.ErrAt = rapid.IntRange(0, n-1).Draw(t, "err_at")
+		}
+		if n > 0 && chainCastsStrings(c.Chain) && rapid.IntRange(0, 1).Draw(t, "has_bad") == 0 {
+			c.BadAtP1 = rapid.IntRange(1, n).Draw(t, "bad_at")
+			c.BadBlocking = rapid.Bool().Draw(t, "bad_blocking")
 		}
 	}
 	return c
@@ -455,6 +466,42 @@ func runC20(c C20Case) (verdict vrt.Verdict) {
 		}
 		lastGood := []WLayer{c.Initial}
 		for i, u := range c.Updates {
+			if c.BadAtP1 == i+1 && chainCastsStrings(c.Chain) {
+				// a value whose text for the number cannot be cast back to an int
+				n := 424242
+				bad := WLayer{Num: &n}
+				bv := reflect.New(tw.typ.Type()).Elem()
+				if err := fillTranslated(bv, "", bad); err != nil {
+					fail("harness: %v", err)
+					return
+				}
+				replaced := false
+				for fi := 0; fi < bv.NumField(); fi++ {
+					f := bv.Field(fi)
+					if f.Kind() == reflect.Pointer && !f.IsNil() && f.Elem().Kind() == reflect.String && f.Elem().String() == "424242" {
+						s := "forty-two"
+						f.Set(reflect.ValueOf(&s))
+						replaced = true
+					}
+				}
+				if replaced {
+					var be error
+					if c.BadBlocking {
+						be = tw.args.BlockingReportNewValue(ctx, bv)
+					} else {
+						be = tw.args.ReportNewValue(ctx, bv)
+					}
+					synctest.Wait()
+					if be == nil {
+						fail("before update %d: the wrapped watcher reported (blocking=%v) a value that cannot be converted back (\"forty-two\" for an int) and was told nil: the translation error of a later update must be handed back, not swallowed", i, c.BadBlocking)
+						return
+					}
+					labels = append(labels, "untranslatable-update")
+					if !compare(fmt.Sprintf("after the untranslatable update before update %d", i), lastGood) {
+						return
+					}
+				}
+			}
 			if i == c.ErrAt {
 				if err := tw.args.ReportError(ctx, errInner); err != nil {
 					fail("ReportError through the wrapper failed: %v", err)
@@ -546,7 +593,7 @@ func TestC20Transforming(t *testing.T) {
 	curT = t
 	vrt.Check(t, vrt.Prop[C20Case]{
 		ID: "C20", Name: "transforming",
-		Rule: "a transforming source with one of 9 mangler lists (none, tag-only, set->slice, string cast, flatten, flatten+cast, the env-style chain, duration substitution, combinations) around a static, watching (0..8 updates, blocking or not, optional error report) or failing inner source that produces values of whatever translated type it is handed (fields located by dials tag path); " +
+		Rule: "a transforming source with one of 9 mangler lists (none, tag-only, set->slice, string cast, flatten, flatten+cast, the env-style chain, duration substitution, combinations) around a static, watching (0..8 updates, blocking or not, optional error report, optionally one update whose number text cannot be cast back - it must be answered with an error and leave the view alone) or failing inner source that produces values of whatever translated type it is handed (fields located by dials tag path); " +
 			"oracle: differential against an unwrapped Dials fed the same data natively, plus a pure model - views agree after the initial stack and after every update, Value/Watch errors fail Config with the inner error, reported errors reach OnWatchedError exactly once; " +
 			"non-trivial = a watching inner source behind a type-changing mangler list with >=2 updates; distinct = distinct case JSON",
 		Assumptions: []string{"the inner source honours the contract: it returns values of the type it was given"},
